@@ -22,6 +22,7 @@ EXPLANATION = (
     "`$domain=a` and `$domain=~a` cannot share an identity; (4) a badfilter never matches: "
     "is_badfilter => false dominates everything in check_options and matches() evaluates "
     "check_options before check_pattern."
+    ' Round 6: borrowed -- the `||host` anchoring table (C02.4), exhaustive probing of every list (C01.3), every option recorded or the line rejected (C03.9).'
 )
 NOT_DECIDED = ("Monotonicity as a relation between two engines and the verdict on concrete requests "
                "(they follow from the precedence formula plus index completeness, C01); hash "
@@ -55,6 +56,16 @@ def check(run):
         from . import C02 as _C02rc
         brc = run.borrow("C02", only=r"regex-text-case|builders-", why="adding an inert rule (a /regex/ that does not compile) must not change how its fused siblings match")
         run.guard("C04.via.C02.3.regex-translation", cfg, lambda: (_C02rc.rule_regex_case(brc, F, cfg), _C02rc.rule_regex_builder(brc, F, cfg)))
+        bha = run.borrow("C02", why="an exception or $important rule `||host^` overrides only if it is found at whichever "
+                                    "occurrence of its host text in the request hostname sits on a label boundary")
+        run.guard("C04.via.C02.4.label-boundary", cfg + "/table", lambda: _C02rc.rule_anchoring_table(bha, F, cfg))
+        from . import C03 as _C03opt
+        bop = run.borrow("C03", why="which lines are rules at all: an exception or $badfilter line whose option list the parser "
+                                    "cannot account for must stay rejected, it may not become a live rule with the odd part ignored")
+        run.guard("C04.via.C03.9.every-entry", cfg + "/recorded", lambda: _C03opt.rule_every_option_recorded(bop, F, cfg))
+        bex = run.borrow("C01", why="the verdict considers every stored exception / $important / blocking rule: a list probe may "
+                                    "not be cut short by anything but an empty list or a hit")
+        run.guard("C04.via.C01.3.exhaustive-probing", cfg, lambda: _C01.rule_exhaustive(bex, F, cfg))
 
 
 def rule_routing(run, F, cfg):
@@ -220,13 +231,18 @@ def rule_precedence(run, F, cfg):
     il = _root_local(f, fields["important"])
     defs = conditional_defs(f, il) if il is not None else []
     ok_i = bool(defs)
+    guarded = False
     for kind, db, val, conds, _ in defs:
         if val == "false":
             continue
         if "is_important" in val or "unwrap_or_else(std::option::Option::map(" in val:
             continue
+        if val == "true" and any(re.search(r"NetworkFilterMaskHelper::is_important\(.*(importants|filters)", e) and v == 1
+                                 for e, v in conds.items()):
+            guarded = True      # `matches!(filter, Some(f) if f.is_important())`: true only under the test
+            continue
         ok_i = False
-    imp_cl = any(c.calls(r"NetworkFilterMaskHelper::is_important$") for c in cl)
+    imp_cl = guarded or any(c.calls(r"NetworkFilterMaskHelper::is_important$") for c in cl)
     run.ob("C04.2.precedence", "important-formula", ok_i and imp_cl,
            "BlockerResult.important is false or is_important() of the chosen filter",
            site=f.loc(b, i), config=cfg)
@@ -426,6 +442,15 @@ def rule_never_matches(run, F, cfg):
            "returned true", site=m.loc(0), config=cfg)
 
 
+def _two_valued(v):
+    """value of a two-valued switch condition: 0/1 for a listed target, the complement for `otherwise`"""
+    if v in (0, 1):
+        return v
+    if isinstance(v, tuple) and len(v) == 2 and v[0] == "not" and len(v[1]) == 1 and v[1][0] in (0, 1):
+        return 1 - v[1][0]
+    return None
+
+
 def rule_verdict_table(run, F, cfg):
     """The verdict of check_parameterised as a truth table over the list-probe outcomes, extracted with the
     path interpreter and compared, valuation by valuation, with the precedence specification:
@@ -540,6 +565,10 @@ def rule_verdict_table(run, F, cfg):
     fields = dict(zip(aggs[0][2]["rv"]["fields"], aggs[0][2]["rv"]["ops"]))
     starts = [b for b, t in f.calls(r"^std::option::Option::is_(some|none)$")
               if f.dominates(b, ab) and red in f.dominators().get(b, set())]
+    # `matches!(filter, Some(f) if ..)` / `match filter {..}` open the result computation with a switch on `filter`
+    starts += [b for b, blk in enumerate(f.blocks)
+               if blk["t"]["k"] == "switch" and f.dominates(b, ab) and red in f.dominators().get(b, set())
+               and re.match(r"^discr\((std::option::Option::as_ref\()?φ\{probe\(importants\)", sh(f.expr_operand(blk["t"]["discr"])))]
     if not starts:
         run.ob("C04.2.precedence", "table:tail-anchor", False, "start of the result computation not found",
                status="UNDISCHARGED", config=cfg)
@@ -553,13 +582,20 @@ def rule_verdict_table(run, F, cfg):
         if p.end != "return":
             continue
         a = {}
+        infeasible = False
+
+        def put(k, val):
+            nonlocal infeasible
+            if a.get(k, val) != val:
+                infeasible = True
+            a[k] = val
         for e, v in p.conds:
             e2 = sh(e)
             m = re.match(r"^std::option::Option::is_(none|some)\(φ\{probe\(importants\) \| std::option::Option::or_else\(", e2)
             m2 = re.match(r"^std::option::Option::is_(none|some)\(φ\{probe\(exceptions\) \| std::option::Option::None\{\}\}\)$", e2)
             m3 = re.match(r"^std::option::Option::unwrap_or_else\(std::option::Option::map\((std::option::Option::as_ref\()?φ\{probe\(importants\).*closure\[([^\]]+)\]\(\)\), closure\[([^\]]+)\]\(\)\)$", e2)
             if m:
-                a["FS"] = v if m.group(1) == "some" else 1 - v
+                put("FS", v if m.group(1) == "some" else 1 - v)
             elif m2:
                 a["ES"] = v if m2.group(1) == "some" else 1 - v
             elif m3:
@@ -572,12 +608,19 @@ def rule_verdict_table(run, F, cfg):
                     unknown.add("important closures: " + e2[:80])
             elif e2 == "arg:matched_rule":
                 a["M"] = v
+            elif re.match(r"^discr\((std::option::Option::as_ref\()?φ\{probe\(importants\) \| std::option::Option::or_else\(", e2) \
+                    and _two_valued(v) is not None:
+                put("FS", _two_valued(v))
+            elif re.match(r"^filters::network::NetworkFilterMaskHelper::is_important\((std::option::Option::as_ref\()?φ\{probe\(importants\) \| std::option::Option::or_else\(.*@Some\.0\)$", e2):
+                a["P"] = v      # the important test written as a pattern guard on the chosen filter
             else:
                 unknown.add(e2[:120])
         vals = {}
         for k in ("matched", "important", "rewritten_url"):
             op = fields[k]
             vals[k] = sh(path_value(f, p, op["pl"]["l"]) or "") if op.get("pl") and not op["pl"]["p"] else sh(f.expr_operand(op))
+        if infeasible:
+            continue        # two tests of the same `filter` value disagree: not an execution
         tail.append((a, vals))
     ok_parse = not unknown and len(tail) >= 4
     run.ob("C04.2.precedence", "table:tail-modelled", ok_parse,
@@ -594,10 +637,11 @@ def rule_verdict_table(run, F, cfg):
             n_val += 1
             got = set()
             for a, vals in tail:
-                if a.get("FS", FS) != FS or a.get("ES", ES) != ES or a.get("M", M) != M or a.get("U", U) != U:
+                if a.get("FS", FS) != FS or a.get("ES", ES) != ES or a.get("M", M) != M or a.get("U", U) != U \
+                        or a.get("P", P) != P:
                     continue
                 mv = {"true": 1, "false": 0, "arg:matched_rule": M}.get(vals["matched"])
-                iv = 0 if vals["important"] == "false" else (U if "unwrap_or_else(" in vals["important"] else None)
+                iv = {"false": 0, "true": 1}.get(vals["important"], U if "unwrap_or_else(" in vals["important"] else None)
                 rw = 1 if vals["rewritten_url"].startswith("blocker::Blocker::apply_removeparam(") else \
                     (0 if vals["rewritten_url"] == "std::option::Option::None{}" else None)
                 got.add((mv, iv, rw))
